@@ -39,9 +39,10 @@ man = {
     "setup_cmd": "sh setup.sh",
     "hooks": {
         "guard": "E2FSPROGS_VERIF",
-        "enable": "harnesses are compiled by goto-cc with -DE2FSPROGS_VERIF (plus, for the scaled "
-                  "unix_io cache configuration, -DCACHE_SIZE=.. -DWRITE_DIRECT_SIZE=..); the normal "
-                  "build never defines it",
+        "enable": "harnesses are compiled by goto-cc with -DE2FSPROGS_VERIF (rbtree parent/colour split, H2) and, per query, the "
+                  "scaling overrides -DE2FSPROGS_VERIF_CACHE_SIZE / _WRITE_DIRECT_SIZE (unix_io.c, H1), "
+                  "-DE2FSPROGS_VERIF_UNDO_MIN_BLOCK_SIZE (undo_io.c H4, misc/e2undo.c H5) and "
+                  "-DE2FSPROGS_VERIF_UNDO_MAX_EXTENT_BLOCKS (undo_io.c, H6); the normal build defines none of them",
         "baseline_off_cmd": "cd /repo && make -j8 >/dev/null && make -k check",
         "source_commits": json.load(open(os.path.join(V, "harness", "hooks.json"))),
         "add_only": True,
